@@ -1,1 +1,124 @@
-//! Parameterised user-supplied shapes for C14 (filled in below).
+//! A parameterised family of user-supplied `PurlShape + FromStr` implementations (C14).
+//!
+//! The parameters (does the conversion succeed, does the hook succeed, which edits does the
+//! hook perform) come from the case; every call the library makes into the shape is appended
+//! to a thread-local log, which becomes the recorded trace checked by Trace_Shapes.tla.
+
+use std::borrow::Cow;
+use std::cell::RefCell;
+use std::str::FromStr;
+
+use purl::{ParseError, PurlParts, PurlShape};
+use serde_json::{json, Value};
+
+use crate::proj::{cps, from_cps, quals_json, ErrName};
+
+#[derive(Clone, Debug, PartialEq, Eq, Hash, PartialOrd, Ord)]
+pub struct TestShape {
+    /// The type string exactly as it was handed to the conversion / the builder.
+    pub ty: String,
+}
+
+#[derive(Debug)]
+pub enum TestErr {
+    Parse(ParseError),
+    Conv,
+    Hook,
+}
+
+impl From<ParseError> for TestErr {
+    fn from(e: ParseError) -> Self {
+        TestErr::Parse(e)
+    }
+}
+
+impl ErrName for TestErr {
+    fn err_name(&self) -> String {
+        match self {
+            TestErr::Parse(e) => format!("Parse:{}", e.err_name()),
+            TestErr::Conv => "ConvError".into(),
+            TestErr::Hook => "HookError".into(),
+        }
+    }
+}
+
+#[derive(Clone, Default)]
+pub struct Params {
+    pub conv: bool,
+    pub fin: bool,
+    pub edits: Vec<Value>,
+}
+
+thread_local! {
+    static PARAMS: RefCell<Params> = RefCell::new(Params::default());
+    static LOG: RefCell<Vec<Value>> = RefCell::new(Vec::new());
+}
+
+pub fn set_params(p: Params) {
+    PARAMS.with(|c| *c.borrow_mut() = p);
+}
+
+pub fn log(ev: Value) {
+    LOG.with(|l| l.borrow_mut().push(ev));
+}
+
+pub fn take_log() -> Vec<Value> {
+    LOG.with(|l| std::mem::take(&mut *l.borrow_mut()))
+}
+
+pub fn parts_json(p: &PurlParts) -> Value {
+    json!({"ns": cps(&p.namespace), "name": cps(&p.name), "ver": cps(&p.version),
+           "quals": quals_json(&p.qualifiers), "sub": cps(&p.subpath)})
+}
+
+impl FromStr for TestShape {
+    type Err = TestErr;
+
+    fn from_str(s: &str) -> Result<Self, Self::Err> {
+        log(json!({"ev": "conv", "arg": cps(s)}));
+        if PARAMS.with(|p| p.borrow().conv) {
+            Ok(TestShape { ty: s.to_owned() })
+        } else {
+            Err(TestErr::Conv)
+        }
+    }
+}
+
+fn apply_edit(parts: &mut PurlParts, e: &Value) {
+    match e[0].as_str().unwrap_or("") {
+        "clearName" => parts.name = Default::default(),
+        "setName" => parts.name = from_cps(&e[1]).into(),
+        "setNs" => parts.namespace = from_cps(&e[1]).into(),
+        "setVer" => parts.version = from_cps(&e[1]).into(),
+        "setSub" => parts.subpath = from_cps(&e[1]).into(),
+        "insQ" => {
+            let _ = parts.qualifiers.insert(from_cps(&e[1]), from_cps(&e[2]));
+        },
+        "remQ" => {
+            parts.qualifiers.remove(from_cps(&e[1]));
+        },
+        other => panic!("unknown edit {other}"),
+    }
+}
+
+impl PurlShape for TestShape {
+    type Error = TestErr;
+
+    fn package_type(&self) -> Cow<str> {
+        Cow::Owned(self.ty.to_ascii_lowercase())
+    }
+
+    fn finish(&mut self, parts: &mut PurlParts) -> Result<(), Self::Error> {
+        let before = parts_json(parts);
+        let params = PARAMS.with(|p| p.borrow().clone());
+        if !params.fin {
+            log(json!({"ev": "finish", "before": before, "after": before, "ok": false}));
+            return Err(TestErr::Hook);
+        }
+        for e in &params.edits {
+            apply_edit(parts, e);
+        }
+        log(json!({"ev": "finish", "before": before, "after": parts_json(parts), "ok": true}));
+        Ok(())
+    }
+}
